@@ -11,3 +11,5 @@ import ThriftVerif.Props.C16
 #print axioms Props.C16.trim_resolves_partial
 #print axioms Props.C16.base_service_dropped
 #print axioms Props.C16.not_idempotent_with_methods
+#print axioms Props.C16.fuel_independent
+#print axioms Props.C16.bindings_preserved
